@@ -150,9 +150,14 @@ fn date_agrees(f: &Fields, d: &NaiveDate) -> Result<(), String> {
         }
     };
     chk(YEAR, m.year)?;
-    if m.year >= 0 { chk(YDIV, m.year / 100)?; chk(YMOD, m.year % 100)?; }
+    if m.year >= 0 { chk(YDIV, m.year / 100)?; chk(YMOD, m.year % 100)?; } else {
+        // documented: setting the century or two-digit-year field implies that the year is not negative
+        ensure!(f.f[YDIV].is_none() && f.f[YMOD].is_none(), "resolved {d:?} has a negative year although year_div_100 / year_mod_100 was supplied ({:?} / {:?}), which implies a non-negative year", f.f[YDIV], f.f[YMOD]);
+    }
     chk(IYEAR, m.iso_year)?;
-    if m.iso_year >= 0 { chk(IDIV, m.iso_year / 100)?; chk(IMOD, m.iso_year % 100)?; }
+    if m.iso_year >= 0 { chk(IDIV, m.iso_year / 100)?; chk(IMOD, m.iso_year % 100)?; } else {
+        ensure!(f.f[IDIV].is_none() && f.f[IMOD].is_none(), "resolved {d:?} has a negative ISO year although isoyear_div_100 / isoyear_mod_100 was supplied");
+    }
     chk(QUARTER, ((m.month - 1) / 3 + 1) as i64)?;
     chk(MONTH, m.month as i64)?;
     chk(WSUN, cal::week_from(z, 6) as i64)?;
@@ -202,10 +207,16 @@ impl SubCheck for Resolve {
             // the first / last seconds of the supported range
             if hi { (cal::max_day(), T { secs: 86_399 - k, frac: 0 }, off.min(0)) } else { (cal::min_day(), T { secs: k, frac: 0 }, off.max(0)) }
         });
-        let val = prop_oneof![8 => (crate::props::c12::fmt_day(), crate::props::c09::text_time(), gen::offset_secs()), 1 => edge];
+        // leap second on the last second of a day, biased to year and month ends (the timestamp path
+        // then has to step back across a day / month / year boundary)
+        let leap_end = (prop_oneof![3 => (1i64..=9999).prop_map(|y| cal::days_from_civil(y, 12, 31)), 1 => (1900i64..2100, 1u32..=12).prop_map(|(y, m)| cal::days_from_civil(y, m, cal::days_in_month(y, m))), 1 => gen::day()], prop_oneof![1 => Just(0u32), 1 => 0u32..1_000_000_000], prop_oneof![2 => Just(0i32), 1 => gen::offset_secs()])
+            .prop_map(|(day, n, off)| (day.clamp(cal::min_day() + 2, cal::max_day() - 2), T { secs: 86_399, frac: 1_000_000_000 + n }, off));
+        // years -100k: the only negative years whose two-digit part is zero
+        let neg_century = (1i64..2600, 1u32..=12, 1u32..=28, crate::props::c09::text_time(), gen::offset_secs()).prop_map(|(k, m, d, t, off)| (cal::days_from_civil(-100 * k, m, d), t, off));
+        let val = prop_oneof![8 => (crate::props::c12::fmt_day(), crate::props::c09::text_time(), gen::offset_secs()), 1 => edge, 2 => leap_end, 1 => neg_century];
         let corrupt = proptest::collection::vec((0usize..NF, 0u8..6, any::<i64>()), 0..4);
         Some(
-            (val, any::<u32>(), prop::bool::weighted(0.5), corrupt, 0u8..5)
+            (val, any::<u32>(), prop::bool::weighted(0.5), corrupt, 0u8..8)
                 .prop_map(|((day, t, off), mask, do_corrupt, cs, style)| {
                     // (day, t) is the wall clock; the value exists iff wall - offset is representable
                     let off = if crate::props::c04::representable(crate::props::c04::shift(crate::refmodel::inst::Ndt { day, secs: t.secs, frac: t.frac }, -(off as i64))) { off } else { 0 };
@@ -217,10 +228,19 @@ impl SubCheck for Resolve {
                         1 => mask | (1 << YEAR) | (1 << MONTH) | (1 << DAY) | (1 << AMPM) | (1 << H12) | (1 << MIN),
                         2 => mask | (1 << IYEAR) | (1 << IWEEK) | (1 << WDAY) | (1 << AMPM) | (1 << H12) | (1 << MIN) | (1 << SEC),
                         3 => mask | (1 << TS),
-                        _ => mask | (1 << YMOD) | (1 << ORD) | (1 << AMPM) | (1 << H12) | (1 << MIN) | (1 << OFF),
+                        4 => mask | (1 << YMOD) | (1 << ORD) | (1 << AMPM) | (1 << H12) | (1 << MIN) | (1 << OFF),
+                        // timestamp + second (+ a few others): the reconstruction path
+                        5 => (mask & mask.rotate_left(7) & mask.rotate_left(13)) | (1 << TS) | (1 << SEC),
+                        // one resolution arm only, no redundant date fields
+                        6 => (1 << IYEAR) | (1 << IWEEK) | (1 << WDAY) | (mask & ((1 << AMPM) | (1 << H12) | (1 << MIN) | (1 << SEC))),
+                        _ => (1 << YEAR) | (1 << [ORD, WSUN, WMON][(mask % 3) as usize]) | (1 << WDAY) | (mask & ((1 << QUARTER) | (1 << TS) | (1 << OFF))),
                     };
                     for i in 0..NF {
                         if mask >> i & 1 == 0 { f.f[i] = None; }
+                    }
+                    // documented tolerance: for a leap second the timestamp may also be that of the next second
+                    if t.leap() && day < cal::max_day() - 1 && f.f[TS].is_some() && f.f[SEC].is_some() && mask & (1 << 31) != 0 {
+                        f.f[TS] = full.f[TS].map(|v| v + 1);
                     }
                     let mut corrupted = false;
                     if do_corrupt {
@@ -238,6 +258,12 @@ impl SubCheck for Resolve {
                             if Some(nv) != f.f[i] { corrupted = true; }
                             f.f[i] = Some(nv);
                         }
+                    }
+                    if cal::civil_from_days(day).0 < 0 && style >= 5 && mask & (1 << 30) != 0 {
+                        let y = cal::civil_from_days(day).0;
+                        let i = [YMOD, YDIV, IMOD, IDIV][(mask >> 28 & 3) as usize];
+                        f.f[i] = Some(if i == YMOD || i == IMOD { y.rem_euclid(100) } else { (-y) / 100 });
+                        corrupted = true;
                     }
                     RCase { day, t, off, fields: f, corrupted }
                 })
